@@ -3,6 +3,8 @@
 package mtproto
 
 import (
+	"reflect"
+
 	"github.com/xelaj/mtproto/internal/mtproto/objects"
 	"github.com/xelaj/mtproto/internal/verifrt"
 )
@@ -167,5 +169,44 @@ func H_C11_rotation_nobody_waiting(kind int) {
 			verifrt.Assert(env.t.log[before].salt == salt, "next-request-under-the-new-salt")
 		}
 	})
+	verifrt.Assert(!crashed, "process-survives")
+}
+
+// H_C11_rotation_hinted: the rejected request is one that declares a bare-vector result (sent with a decoder
+// hint, like every generated method returning Vector<T>).  After `rotations` rejections it is answered with a
+// bare vector under the id of its latest transmission: the caller receives the typed slice, exactly once - the
+// re-sent request carries its hints along.
+func H_C11_rotation_hinted(rotations int) {
+	verifrt.SetClock(1600000000, 0, 1000)
+	env := newNetEnv(100)
+	var c caller
+	salts := []int64{verifrt.I64(), verifrt.I64()}
+	verifrt.Assume(salts[0] != 100 && salts[1] != 100 && salts[0] != salts[1])
+	tok := verifrt.I64()
+	crashed := verifrt.Catch(func() {
+		env.start()
+		go func() {
+			c.val, c.err = env.m.MakeRequestWithHintToDecoder(&objects.PingParams{PingID: 1000}, reflect.TypeOf([]int64{}))
+			c.done++
+		}()
+		cur := env.nextRequest(nil)
+		for r := 0; r < rotations; r++ {
+			env.deliver(badServerSalt(cur.msgID, salts[r]), 2)
+			s := env.nextRequest(nil)
+			verifrt.Assert(pingIDOf(s.body) == 1000 && s.salt == salts[r] && s.msgID > cur.msgID, "hinted-request-resent-under-new-salt")
+			cur = s
+		}
+		env.deliver(rpcResult(cur.msgID, vectorOfLongs([]int64{tok, 7})), 1)
+		verifrt.Quiesce()
+		verifrt.Assert(c.done == 1, "hinted-caller-returned-exactly-once")
+		if c.done == 1 {
+			v, ok := c.val.([]int64)
+			verifrt.Assert(c.err == nil && ok && len(v) == 2 && v[0] == tok && v[1] == 7, "hinted-caller-got-its-typed-slice")
+		}
+		env.probe("after-hinted-rotation-")
+	})
+	if crashed {
+		verifrt.Note("crash: " + verifrt.PanicMsg())
+	}
 	verifrt.Assert(!crashed, "process-survives")
 }
